@@ -197,7 +197,7 @@ package workceptor
 //@ immutable Workceptor.activeUnitsLock, Workceptor.workTypesLock, Workceptor.dataDir, Workceptor.nc
 //@ monitor (w *Workceptor) activeUnitsLock
 //@   protects activeUnits
-//@   inv AU: w.activeUnits != nil
+//@   inv AU: w.activeUnits != nil && forall k string :: (k in w.activeUnits) ==> w.activeUnits[k] != nil
 
 //@ func functype NewWorkerFunc
 //@   params fn, bwu, w, unitID, workType
@@ -245,6 +245,7 @@ package workceptor
 //@   safetytags C04 C08
 //@   safety
 //@   requires w != nil && w.nc != nil
+//@   ensures FOUND: [C04 C08] result.1 == nil ==> result.0 != nil
 
 //@ func newUnknownWorker
 //@   ensures NONNIL: result != nil
@@ -356,3 +357,10 @@ package workceptor
 //@   safetytags C05
 //@   safety
 //@   modifies nothing
+
+// a status query takes the unit index lock only inside findUnit (never around the per-unit status read)
+//@ func (*Workceptor).UnitStatus
+//@   tags C08
+//@   safetytags C08
+//@   safety nil
+//@   requires w != nil && w.nc != nil
